@@ -85,7 +85,7 @@ PROPS["C07"] = dict(
            dict(name="archive_into_population", template="contracts/C07/archive_into_population.vrs",
                 expect=["impl<P> Component<P> for ElitistArchiveIntoPopulation::execute"])],
     kani=[dict(files=["contracts/C07/c07.rs"], inject=[dict(file="contracts/C07/c07_archive.rs", into="src/components/archive.rs")])],
-    min_obligations={"quick": 40, "thorough": 41},
+    min_obligations={"quick": 42, "thorough": 44},
     uncovered=["whole-run clause 'reported best = minimum returned' (placement of updates in templates)"],
     assumptions=["SingleObjective order laws (preamble/objective.rs) = C09 obligations"],
 )
@@ -168,8 +168,12 @@ PROPS["C14"] = dict(
     level="other",
     explanation=("Hoare triples on the real BoundaryConstraint::constrain implementations, one coordinate, domain and coordinate "
                  "symbolic f64 within the stated regime; termination by unwinding assertion."),
-    verus=[], kani=[dict(files=["contracts/C14/c14.rs"])],
-    min_obligations={"quick": 12, "thorough": 15},
+    verus=[dict(name="init_driver", template="contracts/C14/init_driver.vrs", expect=["initialization"])],
+    kani=[dict(files=["contracts/C14/c14.rs"])],
+    native=[dict(files=["contracts/C14/c14_native.rs"],
+                 harnesses={"c14_native_initialisation": dict(anchor="random_spread",
+                            bound="BOUNDED STAND-IN, native run: 40 seeds x sizes 0..4 x 4 domains / dimensions 0..5 for random_spread, random_permutation, random_bitstring")})],
+    min_obligations={"quick": 38, "thorough": 41},
     uncovered=["initialisation operators (rejection-sampling loops over a symbolic RNG are unbounded)", "resampling distribution",
                "boundary_constraint driver over populations"],
 )
@@ -206,7 +210,10 @@ PROPS["C10"] = dict(
            dict(name="changeof", template="contracts/C10/changeof.vrs", expect=["impl<P, L> Condition<P> for ChangeOf<L>::evaluate"]),
            dict(name="less_than_n", template="contracts/C10/less_than_n.vrs", expect=["impl<P, L> Condition<P> for LessThanN<L>::evaluate"])],
     kani=[dict(files=["contracts/C10/c10.rs"])],
-    min_obligations={"quick": 14, "thorough": 14},
+    native=[dict(files=["contracts/C10/c10_native.rs"],
+                 harnesses={"c10_native_logical_and_optimum": dict(anchor="And::evaluate",
+                            bound="BOUNDED STAND-IN, native enumeration: And/Or over every operand vector of length 0..4 (2 evaluations each), Not(And), OptimumReached on a 3x6 grid")})],
+    min_obligations={"quick": 17, "thorough": 17},
     uncovered=["And/Or::evaluate (closure capturing &mut state: Verus rejects; Kani does not terminate)", "the VALUE of the progress written by LessThanN (float division is uninterpreted)",
                "OptimumReached", "RandomChance (probability)"],
 )
@@ -224,9 +231,12 @@ PROPS["C11"] = dict(
                    "kani::ensures(|r: &Option<(f64, f64)>| r.is_none() == population.is_empty())",
                    "kani::ensures(|r: &Option<(f64, f64)>| match r { Some((max, min)) => population.iter().all(|i| i.objective().value() <= *max && i.objective().value() >= *min) && population.iter().any(|i| i.objective().value() == *max) && population.iter().any(|i| i.objective().value() == *min), None => true })",
                ])])],
-    min_obligations={"quick": 32, "thorough": 36},
-    uncovered=["ExponentialRank (float powi)", "RouletteWheel / SUS (float accumulation)", "tournament sampling", "DE selections",
-               "FullyRandom (rejection-sampling loop over a symbolic RNG is unbounded)"],
+    native=[dict(files=["contracts/C11/c11_native.rs"],
+                 harnesses={"c11_native_selection_operators": dict(anchor="Selection::select (sampling operators)",
+                            bound="BOUNDED STAND-IN, native run: 6 populations (sizes 0..5, ties, negatives) x counts 0..n+2 x 6 seeds x 12 operators as components; 4000-draw best-vs-worst frequency for the 4 weight-based operators")})],
+    min_obligations={"quick": 33, "thorough": 39},
+    uncovered=["ExponentialRank, RouletteWheel, SUS, Tournament, DE selections, FullyRandom, CloneSingle are only covered by a BOUNDED native run "
+               "(float powi / accumulation, rejection-sampling loops over a symbolic RNG, State + eyre keep both verifiers out)"],
 )
 PROPS["C15"] = dict(
     level="other",
@@ -237,10 +247,13 @@ PROPS["C15"] = dict(
     kani=[dict(files=["contracts/C15/c15.rs"])],
     native=[dict(files=[], inject=[dict(file="contracts/C15/c15_native.rs", into="src/logging/log.rs")],
                  harnesses={"c15_native_compressed_enumeration": dict(anchor="CompressedLog::from",
-                            bound="BOUNDED STAND-IN, native exhaustive enumeration: all logs of <= 3 steps x <= 3 distinct names out of 4 (68921 logs)")})],
-    min_obligations={"quick": 5, "thorough": 5},
+                            bound="BOUNDED STAND-IN, native exhaustive enumeration: all logs of <= 3 steps x <= 3 distinct names out of 4 (68921 logs)"),
+                            "c15_native_logger_json_roundtrip": dict(anchor="Logger -> Log -> to_json",
+                            bound="BOUNDED STAND-IN, native run: 256 logger configurations (loop lengths 0,1,5,6 x two periodic rules with periods 0..3 x duplicate-name rule x missing-source rule); recorded steps and decoded JSON export compared with independently computed expectation")})],
+    min_obligations={"quick": 6, "thorough": 6},
     uncovered=["compressed export kernel CompressedLog::from is only covered by a BOUNDED native enumeration (CBMC does not finish even on one concrete two-step log: 10 min / 22 GB; Verus rejects its &mut-capturing closure; Kani harness kept in contracts/attic/)",
-               "JSON/CBOR/RON serialisation and decoding", "every template serialises / distinct configurations serialise differently"],
+               "JSON export decoding only through a BOUNDED native run; CBOR decoding and RON configuration export not covered",
+               "every template serialises / distinct configurations serialise differently"],
 )
 
 REG_FILES = ["src/state/registry/mod.rs", "src/state/registry/entry.rs", "src/state/registry/multi.rs"]
@@ -280,7 +293,10 @@ PROPS["C06"] = dict(
                  "every individual evaluated exactly once, in order, solutions untouched, objective = f(solution)."),
     verus=[], kani=[dict(files=["contracts/C06/c06.rs"], map_shim=True,
                          map_shim_files=["src/state/registry/mod.rs", "src/state/registry/entry.rs", "src/state/registry/multi.rs"])],
-    min_obligations={"quick": 3, "thorough": 3},
+    native=[dict(files=["contracts/C06/c06_native.rs"],
+                 harnesses={"c06_native_population_evaluator": dict(anchor="PopulationEvaluator::execute",
+                            bound="BOUNDED STAND-IN, native run: population sizes 0..4 x every evaluated/unevaluated mix x {sequential, parallel} x 1..2 steps; missing-evaluator run")})],
+    min_obligations={"quick": 4, "thorough": 4},
     uncovered=["PopulationEvaluator::execute incl. the evaluation COUNTER (closure capturing &mut population: Verus rejects; State + eyre: Kani cannot)",
                "require (missing evaluator is an error before anything executes)", "Parallel evaluator (threads)",
                "whole-run equality 'reported evaluations = objective-function invocations'", "firefly update's own counting"],
